@@ -3,6 +3,7 @@ package hamt
 import (
 	"context"
 	"fmt"
+	"sync"
 
 	bitfield "github.com/ipfs/go-bitfield"
 	"github.com/ipfs/go-unixfsnode/data"
@@ -31,6 +32,7 @@ type _UnixFSHAMTShard struct {
 	data         data.UnixFSData
 	lsys         *ipld.LinkSystem
 	bitfield     bitfield.Bitfield
+	mu           sync.Mutex // guards shardCache and cachedLength, which are filled in lazily
 	shardCache   map[ipld.Link]*_UnixFSHAMTShard
 	cachedLength int64
 }
@@ -148,7 +150,9 @@ func AttemptHAMTShardFromNode(ctx context.Context, nd ipld.Node, lsys *ipld.Link
 }
 
 func (n UnixFSHAMTShard) loadChild(pbLink dagpb.PBLink) (UnixFSHAMTShard, error) {
+	n.mu.Lock()
 	cached, ok := n.shardCache[pbLink.FieldHash().Link()]
+	n.mu.Unlock()
 	if ok {
 		return cached, nil
 	}
@@ -166,6 +170,12 @@ func (n UnixFSHAMTShard) loadChild(pbLink dagpb.PBLink) (UnixFSHAMTShard, error)
 		return nil, ErrHAMTFanoutMismatch
 	}
 	verifAt("hamt.loadChild.store")
+	n.mu.Lock()
+	defer n.mu.Unlock()
+	if cached, ok := n.shardCache[pbLink.FieldHash().Link()]; ok {
+		// another goroutine loaded the same child meanwhile; keep one instance
+		return cached, nil
+	}
 	n.shardCache[pbLink.FieldHash().Link()] = und
 	return und, nil
 }
@@ -271,8 +281,11 @@ func (n UnixFSHAMTShard) ListIterator() ipld.ListIterator {
 // Length returns the length of a list, or the number of entries in a map,
 // or -1 if the node is not of list nor map kind.
 func (n UnixFSHAMTShard) length() (int64, error) {
-	if n.cachedLength != -1 {
-		return n.cachedLength, nil
+	n.mu.Lock()
+	cachedLength := n.cachedLength
+	n.mu.Unlock()
+	if cachedLength != -1 {
+		return cachedLength, nil
 	}
 	maxPadLen := maxPadLength(n.data)
 	total := int64(0)
@@ -298,7 +311,9 @@ func (n UnixFSHAMTShard) length() (int64, error) {
 		}
 	}
 	verifAt("hamt.length.store")
+	n.mu.Lock()
 	n.cachedLength = total
+	n.mu.Unlock()
 	return total, nil
 }
 
